@@ -275,6 +275,23 @@ CLAIMED['C03'] = dict(
     technique='contract-based deductive verification: byte-sequence postconditions on the real framing code, loop '
               'invariant of the event loop with ghost event/primitive pairing, z3/cvc5')
 
+CLAIMED['C05'] = dict(
+    text='Deductive refinement proof, by contracts on the real functions, of "each iteration of run() is one step of the '
+         'PS3.8 machine": (1) loop invariant of run: one event at a time, handled in queue order with its own primitive; '
+         '(2) events numbered as in PS3.8: PDU_TYPES / PDU_TO_EVENT against the transcription, _check_outgoing_pdu (the '
+         'user primitive becomes the current primitive and gives its event), _check_timer/Timer (Evt18 iff ARTIM running '
+         'and expired), every complete PDU is recognised in every state that has a connection (incl. Sta13); (3) all 247 '
+         'cells x role x ARTIM x primitive kind against Table 9-10 (the C04 obligations, re-generated); (4) the loop '
+         'invariant Inv (idle <=> no connection; ARTIM runs exactly in Sta2 and Sta13) preserved by every defined cell; '
+         '(5) an idle provider without connection reads nothing. The "in particular" clauses follow from (3)+(4)+(5). '
+         'Thorough tier adds a bounded CPython cross-check of whole histories (labelled bounded).',
+    ref='4/C05',
+    note=TRUST + LOOPNOTE + 'the induction over iterations that composes (1)-(5) into "for every history" is not '
+         'machine-checked; user primitives legal in the state they are handled in; clock monotonic; sockets/queues are '
+         'effect stubs; spec/ps38_table_9_10.py is the oracle',
+    technique='contract-based deductive verification: refinement via loop invariant + per-cell contracts + event-source '
+              'contracts, z3/cvc5')
+
 NOT_YET = {
 }
 
